@@ -378,10 +378,10 @@ func witnesses() []caseT {
 		{false, 16, []history{{[]op{w(0, 1, 4), w(8, 2, 4), t(8), fl}}}, "witness-dirty-shrink-mem"},
 		{true, 16, []history{{[]op{w(0, 1, 8), t(4), fl}}}, "witness-dirty-shrink-temp"},
 		{false, 16, []history{{[]op{w(0, 1, 8), t(4), t(8), rd(0, 8), fl}}}, "witness-dirty-shrink-stale-read"},
-		// k=1: shrinking truncate drops the chunks lying wholly below the new size
-		{false, 16, []history{{[]op{w(0, 1, 4), fl, w(4, 2, 4), fl, t(6), fl}}}, "witness-truncate-drops-chunks"},
-		{true, 16, []history{{[]op{w(0, 1, 4), fl, w(4, 2, 4), fl, t(6), fl}}}, "witness-truncate-drops-chunks-temp"},
-		// k=2: the handle's visible-interval cache is never refreshed
+		// repaired (Setattr used to drop the chunks lying wholly below the new size): must be code 0 now
+		{false, 16, []history{{[]op{w(0, 1, 4), fl, w(4, 2, 4), fl, t(6), fl}}}, "fixed-truncate-keeps-chunks"},
+		{true, 16, []history{{[]op{w(0, 1, 4), fl, w(4, 2, 4), fl, t(6), fl}}}, "fixed-truncate-keeps-chunks-temp"},
+		// k=1: the handle's visible-interval cache is never refreshed
 		{false, 16, []history{{[]op{w(0, 1, 4), fl, rd(0, 8), w(0, 2, 4), fl, rd(0, 8)}}}, "witness-stale-view"},
 		{true, 16, []history{{[]op{w(0, 1, 4), fl, rd(0, 8), w(0, 2, 4), fl, rd(0, 8)}}}, "witness-stale-view-temp"},
 	}
@@ -521,7 +521,7 @@ func main() {
 	startStubs()
 	out.Rule = "histories of Write/Truncate/Flush/Read on a fresh mounted file handle, in-memory and temp-file dirty pages; " +
 		"mode exh: every sequence of <=3 writes (thorough <=4) over offsets 0..7 x sizes 1..4 with chunk limit 4 (and <=2 writes with limits 2,3), each followed by Read [0,12) and Flush (a case = one prefix x the 32 last writes); " +
-		"mode rand: first the fixed witnesses of the known findings, then random histories of 5-40 ops (offsets 0..64, sizes 1..12, chunk limit 8/16 or unlimited), profiles: buffer-only / no shrinking truncate and reads at the end / everything; " +
+		"mode rand: first the fixed witnesses of the known findings and of the repaired Setattr defect, then random histories of 5-40 ops (offsets 0..64, sizes 1..12, chunk limit 8/16 or unlimited), profiles: buffer-only / no shrinking truncate and reads at the end / everything; " +
 		"observed: interval lists (offset,size per node) after each write/flush, chunks saved by each op in save order, chunk list after truncate, dirty-layer read bytes+maxStop, FileHandle.Read bytes, file content resolved from the chunks by filer.NonOverlappingVisibleIntervals after every flush; " +
 		"non-trivial = at least one chunk saved and one non-empty read; distinct = canonical op lists"
 	var cases []caseT
